@@ -58,4 +58,13 @@ theorem C19_origin_switches_are_the_sources :
     Gen.ConfigSrc.originOnlyRequests = some Config.originOnlyRequests ∧
     Gen.ConfigSrc.connectFailCloses = some Config.connectFailCloses := by decide
 
+/-- C18 (Properties/C18Stop.lean): the switches behind "when stop returns every socket is closed and every worker stopped" -/
+theorem C18_stop_switches_are_the_sources :
+    Gen.ConfigSrc.removeCleansTables = some Config.removeCleansTables ∧
+    Gen.ConfigSrc.rejectStopsWorkers = some Config.rejectStopsWorkers ∧
+    Gen.ConfigSrc.gateClosing = some Config.gateClosing ∧
+    Gen.ConfigSrc.appConsumersCatch = some Config.appConsumersCatch ∧
+    Gen.ConfigSrc.removeOnlyOwn = some Config.removeOnlyOwn ∧
+    Gen.ConfigSrc.connectFailCloses = some Config.connectFailCloses := by decide
+
 end DV.Node
